@@ -15,7 +15,7 @@ CLAIMED = {
             "DESIGN.md §6 C01"),
     "C16": (MC, "TLC evaluates Ref.tla on generated, fully annotated programs with injected mistakes and classifies each failure kind; the real checker judges the same programs and an accepted program must not fail type-relatedly (confirmed by the real run)",
             "seeded programs (error rate 0.35) whose failure kind the reference semantics determines (TypeError, Arity, ExpectedFunction, MethodError, NoCase, NoSuchVariable, NotBound are type-related); every program `check` accepts without errors must not fail with one of them",
-            "bounded by the generator's type-directed shapes; local lets are unannotated (inferred)",
+            "bounded by the generator's type-directed shapes (with user-defined methods, dictionaries, struct literals) plus a designed family in which typed expressions reach an annotated parameter through an if, a list literal or a match; local lets are unannotated (inferred)",
             "DESIGN.md §6 C16"),
     "C17": (MC, "TLC enumerates Syntax.tla tree families and prints their canonical text; hook `ast` compares the parser's tree (and the lexer's comment list) before and after `format` on canonical and re-laid-out texts",
             "every ExprTrees(1) / StmtTrees(1|2) text, seeded generator programs printed by the specification and the repository's files, each also with seeded layout changes (whitespace, newlines, comments, multi-line / non-ASCII string literals): the formatted text must parse to the same tree with the same comments",
@@ -38,8 +38,8 @@ CLAIMED = {
             "parameters and return types of generated functions are already annotated, so annotations are requested on lets",
             "DESIGN.md §6 C21"),
     "C22": (MC, "TLC evaluates Ref.tla on generated programs; inert lint bait is added and `check --fix` is applied repeatedly: every intermediate text must parse and behave as the reference says the original does, and a fixed point must be reached",
-            "seeded programs that run to completion, as generated and with seeded bait (unused literals and lets, duplicated boolean operands, list length comparisons); fixes applied up to 6 rounds",
-            "unused imports and type parameters are not generated; bait is verified inert on the real interpreter before fixing",
+            "seeded programs that run to completion, as generated and with seeded bait (unused literals and lets, duplicated boolean operands, list length comparisons, unused type parameters in several layouts, a discarded match with one-line cases); fixes applied up to 6 rounds",
+            "unused imports are not generated; bait is verified inert on the real interpreter before fixing",
             "DESIGN.md §6 C22"),
     "C23": (MC, "TLC computes the position table of Lexer.tla for enumerated texts (lexer positions must equal it) and judges with PosOK every position recorded from the front end, interpreter, JSON session and go-to-definition",
             "spec->impl: all six position fields of every token, comment and lexer error on every text of <= 3/4 characters from 20 classes and seeded longer texts; impl->spec: every position reported for the repository's Garden files and generated programs, plain, perturbed with multi-line / non-ASCII literals, wide comments, CRLF, and mutated, is validated by TLC against the text's table",
@@ -70,7 +70,7 @@ CLAIMED = {
             "message equality is between answers of the same session (wording independent); run/:resume render assertion failures differently and are normalised",
             "DESIGN.md §6 C07"),
     "C08": (MC, "TLC: Session.tla with SetInterrupt as a free action (InterruptInvisible); hook H2 interrupts the real session at every tick and at seeded pairs/triples",
-            "TLC places up to 2 interrupts before every tick of every small program and checks the finished evaluation equals the reference; the real session is interrupted at every tick of each generated program, resumed, and must print and answer exactly as uninterrupted",
+            "TLC places up to 2 interrupts before every tick of every small program and checks the finished evaluation equals the reference; the real session is interrupted at every tick of each generated program, resumed, and must print and answer exactly as uninterrupted (every second program ends in an expression whose value is the answer)",
             "interrupts are injected through the production AtomicBool by hook H2; network/reader latency is not modelled",
             "DESIGN.md §6 C08"),
     "C09": (MC, "TLC: JsonSession.tla (reader/channel/worker, OneResponsePerRequest + liveness); TLC-enumerated and simulated request histories replayed into real sessions",
@@ -83,7 +83,7 @@ CLAIMED = {
             "DESIGN.md §6 C10"),
     "C11": (MC, "TLC: compositional sequencing of Ref.tla at every split point (MC_Split) and Ref's value of the last input; real sessions fed piecewise vs at once",
             "error-free generated programs are sent to a real session one definition / statement per request and as one request; the last answered value and the printed output must agree with each other and with the reference semantics",
-            "each top-level name defined once; functions and the enum are separate inputs",
+            "each top-level name defined once; functions, methods, the struct and the enum are separate inputs, for a third of the programs in a shuffled order (a method before the type it is defined on)",
             "DESIGN.md §6 C11"),
     "C24": (MC, "TLC enumerates the forbidden-effect call matrix from Builtins.tla (SandboxExpect); each call x 6 call positions runs in playground-run / sandboxed-test with canaries",
             "every fs / proc / stdin built-in, well-formed and ill-formed, at top level, in a function, in a closure passed to map, in a sandboxed test, via alias and via unqualified import: directory snapshot unchanged, canary executable not run, stdin line not consumed, outcome = sandbox error (argument error allowed for ill-formed calls)",
@@ -110,8 +110,8 @@ CLAIMED = {
             "laws are model checked on a bounded family (no TLAPS proof was built); agreement model/implementation is sampled beyond depth 1",
             "DESIGN.md §6 C14"),
     "C15": (MC, "TLC checks join-is-an-upper-bound and idempotence on Types.tla (Join) and prints the join table; hook `subtype` evaluates the real unify on the same pairs",
-            "the real unify must return exactly Join(a, b) of the specification, for which TLC has checked Sub(a, Join) /\\ Sub(b, Join) and Join(a, a) = a on all pairs of Full(1) and the folded join on triples of Reduced(1); seeded random pairs of depth <= 3",
-            "bounded family; unify_all is checked through folded triples",
+            "what the real unify returns is judged by TLC with Sub (an upper bound of both arguments; the argument itself when both are equal) on all pairs of Full(1) and seeded pairs of depth <= 3; list literals and three-armed matches over 19 typed expressions are typed by the real checker and the reported type must cover every element (the n-ary unify_all path)",
+            "bounded families; a better join than the specification's is not a violation",
             "DESIGN.md §6 C15"),
     "C27": (MC, "TLC evaluates Ref.tla with a `watch` node (first value of one seeded sub-expression) on generated programs; a real JSON session is asked eval_up_to at that expression and must answer that value",
             "seeded programs x seeded watched sub-expression of the top level (literals, variables, operators, parentheses, lists, tuples, constructors, calls, method calls, also inside lambda bodies), top level as a block or a test; the answer must be the first value Ref.tla records, or an error exactly when the program fails before reaching the expression",
@@ -134,11 +134,11 @@ CLAIMED = {
             "definitions are functions; which definition wins a name collision is not specified by the property and only constrained to the files that may provide it",
             "DESIGN.md §6 C34"),
     "C30": (MC, "TLC model checking of Nrepl.tla (all interleavings of reader / workers / flushers / writer on 7 client scenarios, safety + liveness) and TLC trace validation (NreplTrace.tla) of traces recorded from the real server under seeded schedule perturbation",
-            "the design is checked exhaustively on bounded scenarios; every recorded send/recv log of the real server must be explained by some interleaving of the specification's silent server steps with all invariants holding; corrupted copies of accepted traces are rejected on every run",
+            "the design is checked exhaustively on bounded scenarios; every recorded send/recv log of the real server must be explained by some interleaving of the specification's silent server steps with all invariants holding; corrupted copies of accepted traces are rejected on every run; a request printing 256 KiB just before it ends is judged by the same completeness invariant evaluated on the recorded messages",
             "the exhaustive claim is about the model; trace validation covers the schedules produced by the kernel and hook H3; error message texts are not compared",
             "DESIGN.md §3.5, §6 C30"),
     "C31": (MC, "TLC: Nrepl.tla InterruptedOnlyIfAsked + InterruptStops liveness; trace validation of interrupt-heavy scenarios; timed sub-checks on the real server",
-            "interrupt / close at seeded moments (before the eval, while queued, during, after, twice) are recorded and validated against the specification; an idle interrupt must not cancel the next eval, an interrupt or close during a running loop must end it `interrupted` within 2 s",
+            "interrupt / close at seeded moments (before the eval, while queued, during, after, twice) are recorded and validated against the specification; every scenario ends with a value probe behind its cleanup interrupts (a stale flag would cancel it); an idle interrupt must not cancel the next eval, an interrupt or close during a loop seen running must end it `interrupted`",
             "an interrupt handled before the worker has reset the flag (eval still queued / just dequeued) is, by design, wiped like an idle one: the model makes this explicit",
             "DESIGN.md §3.5, §6 C31"),
     "C33": (MC, "TLC enumerates Syntax.tla tree families and prints seeded programs (P / S operators); the parser must rebuild the same tree",
